@@ -1,5 +1,351 @@
 import GnpyModel.Scalar
-/- model file Fiber (see DESIGN.md §2) -/
-namespace Gnpy
+import GnpyModel.Interp
+import GnpyModel.Gn
+/-
+C05 — fibre span: loss budget, chromatic dispersion, PMD, PDL, latency
+(gnpy/core/elements.py `Fiber.__init__/loss/chromatic_dispersion/pmd/propagate`, `Roadm.propagate` and
+`Edfa.propagate` PMD/PDL lines; gnpy/core/science_utils.py `RamanSolver._create_lumped_losses/
+calculate_attenuation_profile/calculate_unidirectional_stimulated_raman_scattering`;
+gnpy/core/parameters.py `FiberParams` latency, `convert_length`; gnpy/core/info.py `apply_attenuation_db`).
+-/
+namespace Gnpy.Fiber
+open Gnpy.Gn
 
-end Gnpy
+section
+variable {α : Type} [Add α] [Sub α] [Mul α] [Div α] [Neg α] [NatCast α] [LT α] [LE α]
+  [DecidableLT α] [DecidableLE α] [Transc α] [HasPi α]
+
+local notation "N(" n ")" => ((n : Nat) : α)
+local notation "π" => (HasPi.pi : α)
+
+/-- `utils.convert_length(value, units)` for the two accepted units -/
+def convertLength (v : α) (km : Bool) : α := if km then v * N(1000) else v * N(1)
+
+/-- `SpectralInformation.apply_attenuation_db`: `pch *= 1 / db2lin(att)` -/
+def applyAttDb (p att : α) : α := p * (N(1) / db2lin att)
+
+/-- `Fiber.__init__`: `lumped_losses = db2lin(- loss_dB)` -/
+def lumpedLin (lossDb : α) : α := db2lin (-lossDb)
+
+/-! ### lumped losses on the z axis (`RamanSolver._create_lumped_losses`)
+`numpy.unique(concatenate((z_lumped, z)), return_inverse=True)` gives the sorted distinct positions; the losses of all
+entries that share a position (several lumped losses at one place, or a lumped loss on a grid point, whose own entry
+is 1) are multiplied (`merged_losses[index] *= loss`).  Points are `(position [m], linear loss)`. -/
+
+/-- insert a point keeping ascending positions; a point whose position is already present multiplies its loss into
+the point that is there -/
+def insertPoint (pt : α × α) : List (α × α) → List (α × α)
+  | [] => [pt]
+  | q :: rest =>
+    if pt.1 < q.1 then pt :: q :: rest
+    else if q.1 < pt.1 then q :: insertPoint pt rest
+    else (q.1, q.2 * pt.2) :: rest
+
+/-- the behaviour before the fix 74081ba1 (`return_index=True`: the first entry of a position wins, later ones are
+dropped); kept only for the witness lemma `lumped_same_position_failed_before_fix` -/
+def insertPointFirstWins (pt : α × α) : List (α × α) → List (α × α)
+  | [] => [pt]
+  | q :: rest =>
+    if pt.1 < q.1 then pt :: q :: rest
+    else if q.1 < pt.1 then q :: insertPointFirstWins pt rest
+    else q :: rest
+
+/-- `_create_lumped_losses(z, lumped_losses, z_lumped_losses)`: the merged, position-sorted list of
+`(z, loss)` where grid points carry the loss 1 -/
+def createLumped (lumped : List (α × α)) (z : List α) : List (α × α) :=
+  (lumped ++ z.map (fun x => (x, N(1)))).foldl (fun acc pt => insertPoint pt acc) []
+
+def prodL : List α → α
+  | [] => N(1)
+  | x :: xs => x * prodL xs
+
+/-- last column of `calculate_attenuation_profile`: `exp(-alpha * L) * cumprod(lumped)[-1]` -/
+def fibreLossLin (alpha len : α) (lumped : List (α × α)) : α :=
+  Transc.exp (-(alpha * len)) * prodL ((createLumped lumped [N(0), len]).map (·.2))
+
+/-- `Fiber.propagate` without Raman, one channel: input connector + padding, fibre loss, output connector -/
+def propagateP (p conIn attIn alpha len : α) (lumped : List (α × α)) (conOut : α) : α :=
+  applyAttDb (applyAttDb p (conIn + attIn) * fibreLossLin alpha len lumped) conOut
+
+/-- `Fiber.loss` (dB) at the reference frequency: what the design uses -/
+def lossDb (lossCoefRef len conIn conOut attIn : α) (lumpedLinear : List α) : α :=
+  lossCoefRef * len + conIn + conOut + attIn + sumL (lumpedLinear.map (fun l => lin2db (N(1) / l)))
+
+/-! ### chromatic dispersion, PMD, latency -/
+
+/-- `Fiber.beta3(f)` for a scalar dispersion (`none` slope ⇒ 0) -/
+def beta3Scalar (slope : Option α) (f beta2 : α) : α :=
+  match slope with
+  | none => N(0)
+  | some s =>
+    let d := N(2) * π * (f * f) / cLight
+    (s - N(4) * π * (f * f * f) / (cLight * cLight) * beta2) / (d * d)
+
+/-- `Fiber.chromatic_dispersion(f)`: `-(beta2 + 2π beta3 (f - f_ref)) * 2π f_ref² / c * length` -/
+def chromaticDispersion (beta2 beta3 f refF len : α) : α :=
+  let negBeta := -(beta2 + N(2) * π * beta3 * (f - refF))
+  negBeta * N(2) * π * (refF * refF) / cLight * len
+
+/-- `Fiber.pmd = pmd_coef * sqrt(length)` -/
+def fibrePmd (pmdCoef len : α) : α := pmdCoef * Transc.sqrt len
+
+/-- `FiberParams._latency = length / (c / n1)` -/
+def latency (len : α) : α := len / (cLight / n1)
+
+/-- `sqrt(x ** 2 + b ** 2)`: the PMD / PDL update of fibres, ROADMs and amplifiers -/
+def quadStep (x b : α) : α := Transc.sqrt (x * x + b * b)
+
+/-- what one element adds to the accumulated figures of one channel -/
+structure Contribution (α : Type) where
+  cd : α        -- [s/m]   (fibres only)
+  pmd : α       -- [s]
+  pdl : α       -- [dB]    (ROADMs and amplifiers only)
+  latency : α   -- [s]     (fibres only)
+
+/-- accumulated figures of one channel -/
+structure Acc (α : Type) where
+  cd : α
+  pmd : α
+  pdl : α
+  latency : α
+
+/-- one element crossed -/
+def accStep (a : Acc α) (c : Contribution α) : Acc α :=
+  { cd := a.cd + c.cd, pmd := quadStep a.pmd c.pmd, pdl := quadStep a.pdl c.pdl, latency := a.latency + c.latency }
+
+/-- a path = the elements crossed in order -/
+def accPath (a : Acc α) (cs : List (Contribution α)) : Acc α := cs.foldl accStep a
+
+/-- contribution of a fibre span to the channel at frequency `f` -/
+def fibreContribution (beta2 beta3 f refF len pmdCoef : α) : Contribution α :=
+  { cd := chromaticDispersion beta2 beta3 f refF len, pmd := fibrePmd pmdCoef len, pdl := N(0), latency := latency len }
+
+/-- contribution of a ROADM (`roadm-pmd`, `roadm-pdl` of the internal path) or of an amplifier (`params.pmd/pdl`) -/
+def lumpedContribution (pmd pdl : α) : Contribution α := { cd := N(0), pmd := pmd, pdl := pdl, latency := N(0) }
+
+/-! ### a whole span -/
+
+/-- what `Fiber.__init__` keeps besides the `Gn.Fibre` coefficients -/
+structure Span (α : Type) where
+  fib : Fibre α
+  conIn : α                 -- [dB]
+  attIn : α                 -- [dB] padding
+  conOut : α                -- [dB]
+  lumped : List (α × α)     -- (position [m], linear loss) in the order of the description
+  pmdCoef : α               -- [s/sqrt(m)]
+
+/-- `Fiber.__init__`: every lumped-loss position (km) must lie strictly inside the fibre
+(`NetworkTopologyError` otherwise) -/
+def lumpedPositionsOk (lenM : α) (l : List (α × α)) : Bool :=
+  l.all (fun x => decide (N(0) < x.1) && decide (x.1 < N(1) / N(1000) * lenM))
+
+/-- `(position km, loss dB)` → `(position m, linear loss)` -/
+def mkLumped (l : List (α × α)) : List (α × α) := l.map (fun x => (x.1 * N(1000), lumpedLin x.2))
+
+/-- power of one channel after `Fiber.propagate` (Raman off); `none` = SpectrumError (loss table) -/
+def spanOut (s : Span α) (f p : α) : Option α :=
+  (alphaAt s.fib f).map (fun a => propagateP p s.conIn s.attIn a s.fib.len s.lumped s.conOut)
+
+/-- what the span adds to CD / PMD / PDL / latency of the channel at `f`; `beta3` is supplied for fibres with a
+dispersion table (numpy polyfit is not modelled), computed from the slope otherwise -/
+def spanContribution (s : Span α) (f : α) (beta3 : Option α) : Option (Contribution α) :=
+  (beta2At s.fib f).map (fun b2 =>
+    let b3 := match beta3 with
+      | some v => v
+      | none => beta3Scalar s.fib.slope f b2
+    fibreContribution b2 b3 f s.fib.refF s.fib.len s.pmdCoef)
+
+/-- `Fiber.loss` -/
+def spanLossDb (s : Span α) : Option α :=
+  (lossCoef s.fib s.fib.refF).map (fun c => lossDb c s.fib.len s.conIn s.conOut s.attIn (s.lumped.map (·.2)))
+
+end
+end Gnpy.Fiber
+
+/-
+Raman solver, unidirectional part (gnpy/core/science_utils.py
+`RamanSolver.calculate_unidirectional_stimulated_raman_scattering`), on the solver's own z grid.
+Vectors are indexed by frequency, matrices `m[a][t]` by frequency `a` and grid index `t`; the Raman efficiency
+`cr[a][b]` (from `Fiber.cr`, an input of the model) is the gain of `a` per W of `b`.
+The grid is the list of `(z, lumped)` pairs returned by `_create_lumped_losses` (`Gnpy.Fiber.createLumped`).
+Not modelled: `iterative_algorithm` (co- and counter-propagating waves together), spontaneous Raman scattering.
+-/
+namespace Gnpy.Raman
+
+section
+variable {α : Type} [Add α] [Sub α] [Mul α] [Div α] [Neg α] [NatCast α] [LT α] [LE α]
+  [DecidableLT α] [DecidableLE α] [Transc α]
+
+local notation "N(" n ")" => ((n : Nat) : α)
+
+/-- `sum(row * p)` -/
+def dot : List α → List α → α
+  | r :: rs, p :: ps => r * p + dot rs ps
+  | _, _ => N(0)
+
+/-! ### method `numerical`: explicit Euler -/
+
+/-- one step: `power[:, i] = power[:, i-1] * (1 + (-alpha + sum(cr * power[:, i-1], 1)) * dz) * lumped` -/
+def eulerStepGo (pAll : List α) (dz l : α) : List α → List α → List (List α) → List α
+  | pa :: ps, a :: as, row :: rows =>
+    pa * (N(1) + (-a + dot row pAll) * dz) * l :: eulerStepGo pAll dz l ps as rows
+  | _, _, _ => []
+
+def eulerStep (alpha : List α) (cr : List (List α)) (p : List α) (dz l : α) : List α :=
+  eulerStepGo p dz l p alpha cr
+
+/-- the columns `power[:, 0], power[:, 1], …` along the grid `(z_k, lumped_k)`; the step from `z_k` to `z_{k+1}`
+uses `lumped_k` -/
+def euler (alpha : List α) (cr : List (List α)) : List α → List (α × α) → List (List α)
+  | p, g0 :: g1 :: rest =>
+    p :: euler alpha cr (eulerStep alpha cr p (g1.1 - g0.1) g0.2) (g1 :: rest)
+  | p, _ => [p]
+
+/-! ### method `perturbative` -/
+
+def vadd : List α → List α → List α
+  | x :: xs, y :: ys => (x + y) :: vadd xs ys
+  | _, _ => []
+
+def vmul : List α → List α → List α
+  | x :: xs, y :: ys => (x * y) :: vmul xs ys
+  | _, _ => []
+
+def vscale (c : α) (v : List α) : List α := v.map (fun x => c * x)
+
+def zeros (n : Nat) : List α := List.replicate n N(0)
+
+/-- `sum(crpz * m, 1)[a]` for one row `crp[a][·]`: `Σ_b crp[a][b] · m[b][·]` -/
+def rowTimes (T : Nat) : List α → List (List α) → List α
+  | c :: cs, mb :: ms => vadd (vscale c mb) (rowTimes T cs ms)
+  | _, _ => zeros T
+
+/-- `sum(crpz * m, 1)` -/
+def crTimes (T : Nat) (crp : List (List α)) (m : List (List α)) : List (List α) := crp.map (fun row => rowTimes T row m)
+
+/-- cumulative trapezoid `cumsum((y[:-1] + y[1:]) / 2 * dz)` started from `acc`, without the leading entry -/
+def trapGo (acc : α) : List α → List α → List α
+  | y0 :: y1 :: ys, z0 :: z1 :: zs =>
+    let acc' := acc + (y0 + y1) / N(2) * (z1 - z0)
+    acc' :: trapGo acc' (y1 :: ys) (z1 :: zs)
+  | _, _ => []
+
+/-- the `z_integral` row with the value 0 put in front (`gamma_k[:, 0] = 0`, `crpz[:, :, 1:] * z_integral`) -/
+def trapCum (ys zs : List α) : List α := N(0) :: trapGo N(0) ys zs
+
+/-- `alphaz = outer(alpha, z_interval)` -/
+def alphazM (alpha zs : List α) : List (List α) := alpha.map (fun a => zs.map (fun z => a * z))
+
+/-- `expz = exp(- alphaz)` -/
+def expzM (alpha zs : List α) : List (List α) := (alphazM alpha zs).map (fun r => r.map (fun x => Transc.exp (-x)))
+
+/-- `eff_length = 1 / outer(alpha, ones) * (1 - expz)` -/
+def effLenM (alpha zs : List α) : List (List α) :=
+  (alpha.zip (expzM alpha zs)).map (fun ae => ae.2.map (fun e => N(1) / ae.1 * (N(1) - e)))
+
+/-- `crpz[a][b] = cr[a][b] * p0[b]` (constant along z) -/
+def crpM (cr : List (List α)) (p0 : List α) : List (List α) := cr.map (fun row => vmul row p0)
+
+/-- the exponent without Raman: `- alphaz` -/
+def expo0 (alpha zs : List α) : List (List α) := (alphazM alpha zs).map (fun r => r.map (fun x => -x))
+
+/-- first-order Raman term `gamma1 = sum(crpz * eff_length, 1)` -/
+def gamma1 (alpha : List α) (cr : List (List α)) (p0 zs : List α) : List (List α) :=
+  crTimes zs.length (crpM cr p0) (effLenM alpha zs)
+
+/-- row-wise sum of two matrices -/
+def madd (x y : List (List α)) : List (List α) := (x.zip y).map (fun r => vadd r.1 r.2)
+
+/-- `exponent` on one interval of the grid (relative positions `zs`, launch powers `p0` already multiplied by the
+lumped loss at the interval start), for `order ∈ {0,…,4}` (the code rejects more than 4) -/
+def expoInterval (order : Nat) (alpha : List α) (cr : List (List α)) (p0 : List α) (zs : List α) : List (List α) :=
+  let T := zs.length
+  let expz := expzM alpha zs
+  let crp := crpM cr p0
+  let e0 := expo0 alpha zs
+  if order = 0 then e0 else
+  let g1 := gamma1 alpha cr p0 zs
+  let e1 := madd e0 g1
+  if order = 1 then e1 else
+  let int2 := (expz.zip g1).map (fun x => trapCum (vmul x.1 x.2) zs)
+  let g2 := crTimes T crp int2
+  let e2 := madd e1 g2
+  if order = 2 then e2 else
+  let half : α := N(1) / N(2)
+  let int3 := (expz.zip (g1.zip g2)).map (fun x =>
+    trapCum (vmul x.1 (vadd x.2.2 (vscale half (vmul x.2.1 x.2.1)))) zs)
+  let g3 := crTimes T crp int3
+  let e3 := madd e2 g3
+  if order = 3 then e3 else
+  let sixth : α := N(1) / N(6)
+  let int4 := (expz.zip (g1.zip (g2.zip g3))).map (fun x =>
+    trapCum (vmul x.1 (vadd (vadd x.2.2.2 (vmul x.2.1 x.2.2.1)) (vscale sixth (vmul x.2.1 (vmul x.2.1 x.2.1))))) zs)
+  let g4 := crTimes T crp int4
+  madd e3 g4
+
+/-- `power_interval = outer(p0, ones) * exp(exponent)` -/
+def powerInterval (order : Nat) (alpha : List α) (cr : List (List α)) (p0 : List α) (zs : List α) : List (List α) :=
+  ((expoInterval order alpha cr p0 zs).zip p0).map (fun x => x.1.map (fun e => x.2 * Transc.exp e))
+
+/-- walk to the first point that carries a lumped loss (≠ 1): returns the points up to and including it, and the
+remaining grid beginning at that point (`([…all…], [])` when there is none) -/
+def splitGo : List (α × α) → List (α × α) × List (α × α)
+  | [] => ([], [])
+  | h :: t =>
+    if h.2 < N(1) ∨ N(1) < h.2 then ([h], h :: t)
+    else
+      let r := splitGo t
+      (h :: r.1, r.2)
+
+/-- the next interval of the perturbative loop: from the first grid point to the next lumped loss (inclusive) or to the
+end; and the grid that remains, beginning at that lumped loss -/
+def takeInterval : List (α × α) → List (α × α) × List (α × α)
+  | [] => ([], [])
+  | g :: rest =>
+    let r := splitGo rest
+    (g :: r.1, r.2)
+
+def lastD (d : α) : List α → α
+  | [] => d
+  | [x] => x
+  | _ :: xs => lastD d xs
+
+/-- append the columns `1:` of `m` to the rows of `acc` -/
+def appendTail (acc m : List (List α)) : List (List α) := (acc.zip m).map (fun x => x.1 ++ x.2.drop 1)
+
+/-- the loop over the intervals between lumped losses; `ll` is the lumped loss applied at the start of the
+current interval (`llumped_losses`), `fuel` bounds the number of intervals.  Returns the power profile and the powers
+at the end of the last interval (`power_in` after the loop = last column of the profile) -/
+def perturbGo (order : Nat) (alpha : List α) (cr : List (List α)) :
+    Nat → List α → α → List (α × α) → List (List α) → List (List α) × List α
+  | 0, pin, _, _, acc => (acc, pin)
+  | fuel + 1, pin, ll, grid, acc =>
+    match grid with
+    | [] => (acc, pin)
+    | [_] => (acc, pin)
+    | g0 :: _ =>
+      let iv := takeInterval grid
+      let zs := iv.1.map (fun g => g.1 - g0.1)
+      let p0 := pin.map (fun x => x * ll)
+      let pw := powerInterval order alpha cr p0 zs
+      let acc' := appendTail acc pw
+      let pin' := (pw.zip pin).map (fun x => lastD x.2 x.1)
+      let ll' := match iv.2 with
+        | [] => N(1)
+        | h :: _ => h.2
+      perturbGo order alpha cr fuel pin' ll' iv.2 acc'
+
+/-- `calculate_unidirectional_stimulated_raman_scattering`, method `perturbative`: rows = frequencies,
+columns = grid points -/
+def perturbative (order : Nat) (alpha : List α) (cr : List (List α)) (pin : List α) (grid : List (α × α)) : List (List α) :=
+  (perturbGo order alpha cr (grid.length + 1) pin N(1) grid (pin.map (fun x => [x]))).1
+
+/-- the powers at the fibre end (last column of `perturbative`) -/
+def perturbativeEnd (order : Nat) (alpha : List α) (cr : List (List α)) (pin : List α) (grid : List (α × α)) : List α :=
+  (perturbGo order alpha cr (grid.length + 1) pin N(1) grid (pin.map (fun x => [x]))).2
+
+/-- transpose of the Euler columns: rows = frequencies -/
+def column (m : List (List α)) (k : Nat) : List α := m.filterMap (fun r => r[k]?)
+
+end
+end Gnpy.Raman
